@@ -74,8 +74,8 @@ def d2_units(d, unit, absolute=False):
     return r.astype(np.int64), float(np.max(np.abs(v - r) / np.maximum(1.0, r))) if v.size else 0.0
 
 
-def k_contacts(case):
-    t = build_traj(case)
+def k_contacts(case, t=None):
+    t = build_traj(case) if t is None else t
     contacts = case["contacts"]
     if contacts != "all" and case.get("as_array"):
         contacts = np.array(contacts, dtype=int).reshape(-1, 2)
@@ -130,8 +130,8 @@ def _ok(f):
         return err(e)
 
 
-def k_centres(case):
-    t = build_traj(case)
+def k_centres(case, t=None):
+    t = build_traj(case) if t is None else t
     out = {}
     out["com"] = _ok(lambda: ratios(md.compute_center_of_mass(t)))
     out["cog"] = _ok(lambda: ratios(md.compute_center_of_geometry(t)))
@@ -141,16 +141,16 @@ def k_centres(case):
     return out
 
 
-def k_rg(case):
-    t = build_traj(case)
+def k_rg(case, t=None):
+    t = build_traj(case) if t is None else t
     masses = None
     if case.get("masses") is not None:
         masses = np.array([n / d for n, d in case["masses"]], dtype=np.float64)
     return {"rg": _ok(lambda: ratios(md.compute_rg(t, masses=masses)))}
 
 
-def k_shape(case):
-    t = build_traj(case)
+def k_shape(case, t=None):
+    t = build_traj(case) if t is None else t
     return {"tensor": _ok(lambda: ratios(md.compute_gyration_tensor(t))),
             "pm": _ok(lambda: ratios(md.principal_moments(t))),
             "b": _ok(lambda: ratios(md.asphericity(t))),
@@ -159,8 +159,8 @@ def k_shape(case):
             "alias": md.relative_shape_antisotropy is md.geometry.shape.relative_shape_anisotropy}
 
 
-def k_density(case):
-    t = build_traj(case)
+def k_density(case, t=None):
+    t = build_traj(case) if t is None else t
     masses = None
     if case.get("masses") is not None:
         masses = np.array([n / d for n, d in case["masses"]], dtype=np.float64)
@@ -168,8 +168,8 @@ def k_density(case):
             "volumes": _ok(lambda: ratios(t.unitcell_volumes))}
 
 
-def k_rdf(case):
-    t = build_traj(case)
+def k_rdf(case, t=None):
+    t = build_traj(case) if t is None else t
     kw = {"periodic": case["periodic"]}
     if case.get("r_range") is not None:
         kw["r_range"] = [n / d for n, d in case["r_range"]]
@@ -186,8 +186,8 @@ def k_rdf(case):
     return {"r": ratios(r), "g": ratios(g), "n": int(len(r)), "same_len": len(r) == len(g)}
 
 
-def k_drid(case):
-    t = build_traj(case)
+def k_drid(case, t=None):
+    t = build_traj(case) if t is None else t
     ai = case.get("atom_indices")
     try:
         x = md.compute_drid(t, atom_indices=None if ai is None else np.array(ai, dtype=int))
@@ -196,8 +196,8 @@ def k_drid(case):
     return {"shape": list(x.shape), "x": ratios(x)}
 
 
-def k_karplus(case):
-    t = build_traj(case)
+def k_karplus(case, t=None):
+    t = build_traj(case) if t is None else t
     fn = {"HA": md.compute_J3_HN_HA, "C": md.compute_J3_HN_C, "CB": md.compute_J3_HN_CB}[case["which"]]
     try:
         idx, j = fn(t, model=case["model"]) if case.get("model") else fn(t)
@@ -208,8 +208,8 @@ def k_karplus(case):
             "phi": ratios(phi), "shape": list(np.asarray(j).shape)}
 
 
-def k_dipole(case):
-    t = build_traj(case)
+def k_dipole(case, t=None):
+    t = build_traj(case) if t is None else t
     q = np.array([n / d for n, d in case["charges"]], dtype=np.float64)
     return {"mu": _ok(lambda: ratios(md.geometry.dipole_moments(t, q)))}
 
@@ -228,13 +228,13 @@ def _indices(case):
     return g if isinstance(g, str) else [list(x) for x in g]
 
 
-def k_inertia(case):
-    t = build_traj(case)
+def k_inertia(case, t=None):
+    t = build_traj(case) if t is None else t
     return {"I": _ok(lambda: ratios(md.compute_inertia_tensor(t)))}
 
 
-def k_order(case):
-    t = build_traj(case)
+def k_order(case, t=None):
+    t = build_traj(case) if t is None else t
     out = {}
     try:
         d = md.compute_directors(t, indices=_indices(case))
@@ -246,8 +246,8 @@ def k_order(case):
     return out
 
 
-def k_rdf_t(case):
-    t = build_traj(case)
+def k_rdf_t(case, t=None):
+    t = build_traj(case) if t is None else t
     kw = {"periodic": case["periodic"], "self_correlation": case["self_correlation"]}
     if case.get("r_range") is not None:
         kw["r_range"] = [n / d for n, d in case["r_range"]]
@@ -266,7 +266,103 @@ def k_rdf_t(case):
     return {"r": ratios(r), "g": ratios(g), "n": int(len(r)), "shape": list(np.asarray(g).shape)}
 
 
-KINDS = {"inertia": k_inertia, "order": k_order, "rdf_t": k_rdf_t, "contacts": k_contacts, "squareform": k_squareform, "centres": k_centres, "rg": k_rg, "shape": k_shape,
+def snapshot(t):
+    """the object's CURRENT state as exact data: topology rows, bonds, coordinates as integers in a power-of-two
+    unit (64 when still on the 1/64 nm grid, else 2^60), orthorhombic cell lengths in the same unit"""
+    from fractions import Fraction
+    top = t.topology
+    rows = [[r.name, r.chain.index, [[a.name, a.element.symbol] for a in r.atoms]] for r in top.residues]
+    bonds = [[b[0].index, b[1].index] for b in top.bonds]
+    x = np.asarray(t.xyz, dtype=np.float64)
+    unit = 64
+    if not np.array_equal(np.rint(x * 64), x * 64):
+        unit = 2 ** 60
+    xi = [[[int(Fraction(float(v)) * unit) for v in a] for a in f] for f in x]
+    exact = all(Fraction(xi[f][a][k], unit) == Fraction(float(x[f, a, k])) for f in range(x.shape[0])
+                for a in range(x.shape[1]) for k in range(3))
+    box = None
+    if t.unitcell_lengths is not None and np.all(np.abs(np.asarray(t.unitcell_angles) - 90.0) < 1e-6):
+        bl = np.asarray(t.unitcell_lengths, dtype=np.float64)
+        bi = [[int(Fraction(float(v)) * unit) for v in f] for f in bl]
+        if all(Fraction(bi[f][k], unit) == Fraction(float(bl[f, k])) for f in range(bl.shape[0]) for k in range(3)):
+            box = bi
+    return {"top": rows, "bonds": bonds, "unit": unit, "xyz": xi, "exact": bool(exact), "box": box,
+            "has_cell": t.unitcell_lengths is not None, "traces": t._rmsd_traces is not None}
+
+
+def apply_state_op(t, op):
+    """state-changing operations of a call history; returns the (possibly new) trajectory object"""
+    k = op["op"]
+    top = t.topology
+    if k == "center":
+        t.center_coordinates(mass_weighted=bool(op.get("mass_weighted", False)))
+    elif k == "superpose":
+        t.superpose(t, frame=op.get("frame", 0))
+    elif k == "scale_axis":            # in place through the array: bypasses the xyz setter
+        t.xyz[:, :, op["axis"]] *= op["factor"]
+    elif k == "shift_atoms":
+        t.xyz[:, op["atoms"]] += np.array(op["delta"], dtype=np.float32) / 64.0
+    elif k == "swap_frames_view":
+        v = t.xyz[::2]
+        v[...] = v[:, ::-1]
+    elif k == "set_xyz":               # through the setter
+        t.xyz = (np.array(op["xyz"], dtype=np.float64) / 64.0).astype(np.float32)
+    elif k == "slice":
+        t = t[op["frames"]]
+    elif k == "atom_slice":
+        t.atom_slice(op["atoms"], inplace=True)
+    elif k == "make_whole":
+        t.make_molecules_whole(inplace=True)
+    elif k == "image":
+        t.image_molecules(inplace=True)
+    elif k == "set_unitcell":
+        n = t.n_frames
+        t.unitcell_lengths = np.tile(np.array(op["lengths"], dtype=np.float64) / 64.0, (n, 1))
+        t.unitcell_angles = np.full((n, 3), 90.0)
+    elif k == "set_element":
+        for a in op["atoms"]:
+            top.atom(a).element = elem.get_by_symbol(op["symbol"])
+    elif k == "rename_atom":
+        top.atom(op["atom"]).name = op["name"]
+    elif k == "rename_residue":
+        top.residue(op["residue"]).name = op["name"]
+    elif k == "add_bond":
+        top.add_bond(top.atom(op["a"]), top.atom(op["b"]))
+    else:
+        raise KeyError(k)
+    return t
+
+
+CALLS = {}
+
+
+def k_history(case):
+    """one Trajectory/Topology object, a sequence of state changes and descriptor calls; every call is returned
+    together with a snapshot of the state the object had when it was made"""
+    t = build_traj(case)
+    out = []
+    for i, op in enumerate(case["ops"]):
+        if op["op"] == "call":
+            c = dict(op["args"])
+            snap = snapshot(t)
+            c["unit"] = snap["unit"]
+            if c["kind"] == "contacts" and snap["unit"] != 64:
+                out.append({"i": i, "skip": "offgrid", "snap": None})
+                continue
+            res = KINDS[c["kind"]](c, t)
+            snap2 = snapshot(t)
+            out.append({"i": i, "res": res, "snap": snap,
+                        "mutated_by_call": snap2["xyz"] != snap["xyz"] or snap2["top"] != snap["top"]})
+        else:
+            try:
+                t = apply_state_op(t, op)
+                out.append({"i": i, "state": "ok"})
+            except Exception as e:  # noqa: BLE001  (a refused state change leaves the object as it is)
+                out.append({"i": i, "state": "refused", "err": type(e).__name__})
+    return {"steps": out}
+
+
+KINDS = {"history": k_history, "inertia": k_inertia, "order": k_order, "rdf_t": k_rdf_t, "contacts": k_contacts, "squareform": k_squareform, "centres": k_centres, "rg": k_rg, "shape": k_shape,
          "density": k_density, "rdf": k_rdf, "drid": k_drid, "karplus": k_karplus, "dipole": k_dipole}
 
 
